@@ -11,6 +11,8 @@ VERIF = os.path.dirname(os.path.dirname(os.path.abspath(__file__)))
 REPO = os.environ.get("VERIF_REPO", "/repo")
 SPECS = os.path.join(VERIF, "specs")
 HARNESS = os.path.join(VERIF, "harness")
+# the registered commands never set these two; bin/seedtest points them at a scratch worktree and a scratch evidence directory
+EVIDENCE = os.environ.get("VERIF_EVIDENCE", os.path.join(VERIF, "evidence"))
 TLA_CP = "/opt/veriftools/tla/tla2tools.jar:/opt/veriftools/tla/CommunityModules-deps.jar"
 NCPU = os.cpu_count() or 4
 
@@ -314,7 +316,7 @@ class Ctx:
         self.rng = random.Random(seed)
         self.t0 = time.time()
         self.work = os.path.join(VERIF, "build", pid + "." + str(os.getpid()))
-        self.replay_dir = os.path.join(VERIF, "evidence", "replay")
+        self.replay_dir = os.path.join(EVIDENCE, "replay")
         self.models = []          # TLCResult summaries
         self.bad = []             # verdict records (dicts) from judges
         self.drift = []           # model drift records (never alarms)
@@ -701,7 +703,7 @@ class Ctx:
         }
         ev["coverage"].update(self.extra)
         if self.tier != "replay":
-            with open(os.path.join(VERIF, "evidence", self.pid + ".json"), "w") as f:
+            with open(os.path.join(EVIDENCE, self.pid + ".json"), "w") as f:
                 json.dump(ev, f, indent=1)
         self.cleanup()
         if self.drift:
@@ -709,7 +711,7 @@ class Ctx:
             log("  model drift (not an alarm):", dict(list(c.items())[:8]))
             self.extra["model_drift_kinds"] = [[k[0], list(k[1]), v] for k, v in c.items()][:12]
             ev["coverage"]["model_drift_kinds"] = self.extra["model_drift_kinds"]
-            with open(os.path.join(VERIF, "evidence", self.pid + ".json"), "w") as f:
+            with open(os.path.join(EVIDENCE, self.pid + ".json"), "w") as f:
                 json.dump(ev, f, indent=1)
         log("%s %s: %d events judged, %d executions, models %s, %d violations, %d known-finding classes, %d drift, %.0fs" % (
             self.pid, self.tier, self.events_judged, self.traces_validated,
